@@ -86,6 +86,12 @@ func c12Requests() []req {
 		{"info key list", []string{"info", "key", "list"}, ""},
 		{"gen attr", []string{"gen", "attr", "-d", "30"}, ""},
 	}
+	// chords whose keys are not in ascending order (a bass above the chord tones: compound slash bass)
+	ymlHigh := "- chord: {degree: \"1\", name: \"\", base: \"9\"}\n  values: [\"1\"]\n- chord: {degree: \"5\", name: \"7\", base: \"b10\"}\n  values: [\"1\"]\n- chord: {degree: \"2\", name: m, base: \"13\"}\n  values: [\"1/2\"]\n"
+	rs = append(rs,
+		req{"write high bass", []string{"write"}, ymlHigh},
+		req{"write event high bass track 3", []string{"write", "event", "--track", "3"}, ymlHigh},
+		req{"text conv degree high bass", []string{"text", "conv", "degree"}, "1/9[1] 5_7/10b[1] 2m/13[1/2]\n"})
 	// user dictionaries: entries that collide with built-ins on the display symbol or on the name (later wins, every run)
 	rs = append(rs,
 		req{"write user display collision", []string{"write", "event", "--chord", "@DICT1"}, "- chord: {degree: \"1\", name: \"7\"}\n  values: [\"1\"]\n- chord: {degree: \"1\", name: \"m\"}\n  values: [\"1\"]\n- chord: {degree: \"1\", name: DominantSeventh}\n  values: [\"1\"]\n"},
@@ -120,6 +126,7 @@ func init() {
 				reps = 40
 			}
 			outs := [][]any{}
+			sinks := [][]any{}
 			for i := 0; i < reps; i++ {
 				args := append([]string{}, rq.args...)
 				dictViaFifo := false
@@ -203,6 +210,7 @@ func init() {
 					}
 				}
 				ofile := ""
+				sink, ofifo := false, ""
 				if i%4 == 3 {
 					// the -o file may already exist and be longer than the result: it must be replaced, not overwritten in place
 					ofile = c.writeTemp(fmt.Sprintf("out%d", nextID()), strings.Repeat("stale output of an earlier run\n", 4000))
@@ -210,8 +218,22 @@ func init() {
 						os.Remove(ofile)
 					}
 					tmp = append(tmp, ofile)
-					args = append(args, "-o", ofile)
 					variant = append(variant, "-o")
+					// ... or not be a regular file at all: a named pipe somebody reads, or /dev/null (which of the three rotates
+					// with the request index)
+					if i%8 == 3 {
+						switch ci(k, "i") % 3 {
+						case 1:
+							os.Remove(ofile)
+							ofifo = ofile
+							variant[len(variant)-1] = "-o=fifo"
+						case 2:
+							os.Remove(ofile)
+							ofile, sink = "/dev/null", true
+							variant[len(variant)-1] = "-o=/dev/null"
+						}
+					}
+					args = append(args, "-o", ofile)
 				}
 				// in-place: -o onto the very file the input is read from (the result must be complete all the same)
 				if ofile != "" && i%8 == 7 {
@@ -233,9 +255,28 @@ func init() {
 						fifos[k2] = v2
 					}
 				}
-				r := runWith(bin, args, stdin, env, stdinMode, fifos)
+				var r struct {
+					Exit     int
+					Stdout   []byte
+					TimedOut bool
+				}
+				var fifoBytes []byte
+				if ofifo != "" {
+					x := run.Run(bin, run.Cmd{Args: args, Stdin: stdin, Env: env, Timeout: 60 * time.Second, StdinMode: stdinMode, Fifos: fifos, OutFifos: []string{ofifo}})
+					r.Exit, r.Stdout, r.TimedOut = x.Exit, x.Stdout, x.TimedOut
+					fifoBytes = x.FifoOut[ofifo]
+				} else {
+					r = runWith(bin, args, stdin, env, stdinMode, fifos)
+				}
 				out := r.Stdout
-				if ofile != "" && r.Exit == 0 { // a failed run has no result; whether it leaves an existing file alone is not C12's business
+				if sink {
+					// nothing to compare but the outcome: same success as every other run, nothing on stdout
+					sinks = append(sinks, []any{r.Exit == 0, len(r.Stdout), strings.Join(variant, " "), !r.TimedOut})
+					continue
+				}
+				if ofifo != "" && r.Exit == 0 {
+					out = append(append([]byte{}, r.Stdout...), fifoBytes...)
+				} else if ofile != "" && r.Exit == 0 { // a failed run has no result; whether it leaves an existing file alone is not C12's business
 					if b, err := os.ReadFile(ofile); err == nil {
 						out = append(append([]byte{}, r.Stdout...), b...) // what the user gets: stdout must stay empty, the file carries the result
 					}
@@ -255,7 +296,7 @@ func init() {
 					plain = append(plain, o)
 				}
 			}
-			return []Rec{{"kind": "group", "cls": rq.name, "outs": plain},
+			return []Rec{{"kind": "group", "cls": rq.name, "outs": plain, "sinks": sinks},
 				{"kind": "debug", "sub": "debug", "cls": rq.name, "plain": plain[0], "outs": dbg}}
 		},
 	})
